@@ -899,7 +899,7 @@ class Crate:
             from . import inline
             base = inline.load_baseline()
             if base is not None:
-                self.inlined_helpers = inline.inline_crate(facts, base.get(self.kind))
+                self.inlined_helpers = inline.inline_crate(facts, base.get(self.kind), base.get(self.kind + "_comb"))
                 facts["_inlined"] = True
                 facts["_inlined_helpers"] = self.inlined_helpers
         else:
@@ -1292,3 +1292,41 @@ def anon(e, table=None):
 
 def render_key(e, table=None):
     return render(anon(e, table))
+
+
+def bool_sources(b, l, depth=4):
+    """definitions of a bool local, through plain copies of other locals (stripped expressions)"""
+    out = []
+    for bi, si in b.defs.get(l, []):
+        e = strip_sites(b.def_expr(bi, si))
+        if e[0] == "var" and depth > 0 and e[1] != l:
+            out += bool_sources(b, e[1], depth - 1)
+        else:
+            out.append(e)
+    return out
+
+
+def raw_root_local(b, op, want=lambda ty: True, depth=6):
+    """the local an operand was taken from, following single-definition temporaries through plain uses, references and
+    pointer casts only (calls are not looked through): `&args` handed to a callee -> the local `args`"""
+    for _ in range(depth):
+        pl = op.get("move") or op.get("copy") if isinstance(op, dict) else None
+        if pl is None:
+            return None
+        l = pl["l"]
+        if want(b.locals[l]["ty"]) and not b.locals[l]["ty"].startswith("&"):
+            return l
+        defs = b.defs.get(l, [])
+        if len(defs) != 1 or defs[0][1] == "T":
+            return None
+        st = b.blocks[defs[0][0]]["stmts"][defs[0][1]]
+        rv = st["rv"]
+        if rv["k"] in ("ref", "rawptr"):
+            op = {"copy": {"l": rv["place"]["l"], "p": []}}
+        elif rv["k"] == "use":
+            op = rv["op"]
+        elif rv["k"] == "cast":
+            op = rv["op"]
+        else:
+            return None
+    return None
